@@ -162,7 +162,7 @@ func zeroOf(t types.Type) IVal {
 	case *types.Pointer, *types.Interface, *types.Slice, *types.Map, *types.Signature, *types.Chan:
 		return IVal{K: ivNil}
 	}
-	return IVal{K: ivOpaque, S: "zero " + t.String()}
+	return IVal{K: ivOpaque, S: "zero " + TStr(t)}
 }
 
 func newCell(t types.Type) *ICell {
